@@ -24,6 +24,7 @@ SIM_FD_BASE = 1_000_000
 # the REAL os functions, for the harness's own look at the real file system (several are redirected while seams are installed)
 REAL_LISTDIR = os.listdir
 REAL_ISLINK = os.path.islink
+REAL_REALPATH = os.path.realpath
 
 
 class SimCrash(BaseException):
@@ -138,7 +139,7 @@ class Kernel:
                     break
             # ... then realpath: symbolic links that exist on the real file system (the sandbox's `ln -> .` and
             # `lnk_libN.ukv -> libN.ukv`) alias names here exactly as they do for molli's rwlock()
-            r = self._normcache[p] = os.path.realpath(q)
+            r = self._normcache[p] = REAL_REALPATH(q)
         return r
 
     def symlink(self, link, target):
